@@ -51,6 +51,27 @@ P = {
         "Bound: depth and the burst alphabet (one member per dispatch branch plus blocks-to-follow / confirmed / SAP variants). Trusted: harness monitor, counter seam for secrets.token_bytes, constant clock.",
         "DESIGN.md §3 C08",
     ),
+    "C14": (
+        "model_checking",
+        "complete enumeration of dense ranges and structured septet families on the real MBXML writers/readers vs. a harness varint reference",
+        "uintvar 0..2^16 (thorough 0..2^21) + every value with two free septets (all 128^2 values, all 10 position pairs) + all septet boundaries; the same mirrored for sintvar (incl. negative zero); floats: all 128 / 16,384 fractions for precision 1 / 2 x integer alphabet, boundary (thorough: all 128^3 for 3 integers) fractions for precision 3; latitude/longitude on a 10^-3 grid plus 10^-6 windows read back through the XML view; all dates 2000-2099 x 3 times and all 86,400 times x dates.",
+        "Bound: 32-bit values above 2^21 only in the structured families; float integer parts from a 45-value alphabet. Trusted: harness varint reference (self-tested on the repository's example vectors).",
+        "DESIGN.md §3 C14",
+    ),
+    "C15": (
+        "model_checking",
+        "bounded-exhaustive enumeration of token sequences, token x value alphabets, multi-document tuples and constant-table variants, written by the harness's own MBXML writer and re-serialised by the library",
+        "18 LRRP document ids x all token sequences of length 0..2 (thorough 0..3), every token x its complete value alphabet inside a 10-token background, all ordered 1..3 (4) document tuples over 8 representative documents, inline / inherited / default constant tables, and the token lookup API (get_token -> as_bytes in one forked child, from_bytes in another). Bytes in == bytes out, parts equal the harness's token list, parsing terminates.",
+        "Bound: sequences of arbitrary tokens only to length 2 (3), longer documents through the fixed background; ARRP ids and unimplemented kinds excluded. Trusted: harness MBXML writer and transcribed token tables (cross-checked against the library tables at start-up).",
+        "DESIGN.md §3 C15",
+    ),
+    "C16": (
+        "model_checking",
+        "full product of small per-field alphabets (all sequence numbers 0..127, all refresh times 1..127, all failure reasons, flag combinations, address / text / identifier lengths) on the real TMS / ARS codecs with an independent wire-layout decoder",
+        "TMS service availability, acknowledgement (sequence number absent + all 0..127) and text messages (all sequence numbers x encodings x texts x addresses); ARS registration cube, responses (every failure reason, all refresh times), query / de-registration, with and without CSBK trailer and for both header forms. Length prefix == bytes that follow, fields equal after from_bytes, identical re-serialisation, and an independent harness decode of the optional-header octets.",
+        "Bound: one content per address/text/identifier length; big-endian only. Trusted: harness wire-layout decoder.",
+        "DESIGN.md §3 C16",
+    ),
     "C17": (
         "model_checking",
         "explicit-state BFS over the real RRSDatagramProtocol (single handler, and two handlers wired back to back with all delivery orders) + complete enumeration of all truncations / single-bit corruptions at depth 1",
